@@ -256,6 +256,57 @@ class LinearMixture(c03.StubMixture):
         return sum(x * self.E.uf(f'h{i}_{phase}', T, P) for i, x in enumerate(fl) if not S.is_zero(x))
 
 
+class RootFlx(c03.FlxStub):
+    """IQ_interpolation at its contract: the point it returns is a root of the residual it was handed"""
+    def IQ_interpolation(self, f, x0, x1, y0, y1, x, xtol, ytol, args=(), **kw):
+        E = self.E
+        self.k += 1
+        E.stub_called('IQ_interpolation')
+        lo = E.ite(x0 <= x1, x0, x1) if not E.concrete else min(x0, x1)
+        hi = E.ite(x0 <= x1, x1, x0) if not E.concrete else max(x0, x1)
+        r = E.real(f'root{self.k}', nice=(1, 1e6))
+        if not E.concrete:
+            E.assume(E.all([r >= lo, r <= hi]))
+        res = f(r, *args)
+        if not E.concrete:
+            E.assume(res == 0)
+        return r
+
+
+def g_TH_TS_residual():
+    """T-H and T-S flashes of two volatile chemicals on a stream whose current T, P differ from the specification:
+    with the pressure solver at its contract (it returns a root of the residual it was handed) the resulting
+    stream reproduces the specified H / S - i.e. the residual is evaluated at the SPECIFIED temperature and on
+    the flows the stream ends up with.  Mixture H / S uninterpreted."""
+    def run(E):
+        spec = E.pick(['TS', 'TH'], 'spec')
+        ms, tot, fsig = c03.mk_feed(E, [2], ('both',), ((0, 0),))
+        V = c03.make_vle(E, ms)
+        vle = C.mod('thermosteam.equilibrium.vle')
+        C.setg(vle, 'flx', RootFlx(E, vle.flx.real if isinstance(vle.flx, c03.FlxStub) else vle.flx))
+        T0 = E.real('T0', lo=250, hi=500, nice=(300, 400))
+        P0 = E.real('P0', lo=1e4, hi=5e6, nice=(5e4, 5e5))
+        ms._thermal_condition._T = T0
+        ms._thermal_condition._P = P0
+        kw = c03.spec_values(E, spec)
+        sig = f'{spec}/{fsig}'
+        try:
+            V(**kw)
+        except (tmo.exceptions.InfeasibleRegion, NotImplementedError, AssertionError, ZeroDivisionError, FloatingPointError, RuntimeError) as e:
+            raise core.PathAbort(f'refused: {type(e).__name__}')
+        if not E.stub_calls.get('IQ_interpolation'):
+            raise core.PathAbort('no pressure solve on this path')
+        mix = V._thermo.mixture
+        E.prove('stored-T-equals-specified-T', E.eq(ms.T, kw['T']), sig=sig)
+        if spec == 'TS':
+            after = mix.xS(tuple(ms.imol), ms.T, ms.P)
+            E.prove('specified-S-reproduced-at-a-root-of-the-residual', E.eq(after, kw['S']), sig=sig)
+        else:
+            after = mix.xH(tuple(ms.imol), ms.T, ms.P)
+            E.prove('specified-H-reproduced-at-a-root-of-the-residual', E.eq(after, kw['H']), sig=sig)
+    return run
+
+
 def g_PH_exact():
     def run(E):
         ms, tot, fsig = c03.mk_feed(E, [2], ('both',), ((0, 0),))
@@ -292,6 +343,7 @@ def groups(tier):
                                 dict(max_paths=3000000, task_budget_s=300))
     g['spec-bookkeeping-xy'] = (g_bookkeeping(['Tx', 'Px', 'Ty', 'Py'], [2], ((0, 0),), ('both',)),
                                 dict(max_paths=3000000, task_budget_s=300))
+    g['TH-TS-residual'] = (g_TH_TS_residual(), dict(max_paths=1000000, task_budget_s=120, qtimeout_ms=20000, stubs_required=('IQ_interpolation',)))
     if not q:
         g['PH-exactness'] = (g_PH_exact(), dict(max_paths=3000000, task_budget_s=120, qtimeout_ms=10000))
     return g
